@@ -98,6 +98,9 @@ func runC06(tb ev.TB, p c06Prog) ev.Result {
 		case "append", "join":
 			sim.MustOK(tb, info) // includes: entries produced by Append merge under this codec
 		}
+		if info.Refused && !info.Skipped && info.Err == nil {
+			tb.Fatalf("op #%d: merge of a log with an unsigned candidate entry was not refused", info.Index)
+		}
 		if info.Op.Kind == "append" {
 			r := w.Reps[info.Dst]
 			if err := info.Entry.Verify(world.Identity(r.Writer).Provider, w.IO); err != nil {
